@@ -14,7 +14,11 @@ pub struct Folded<S: State> {
 impl<S: State> Folded<S> {
     pub(super) fn from_spectrum(spectrum: &Spectrum<S>) -> Self {
         let n = spectrum.elements();
-        let total_count = spectrum.shape().iter().sum::<usize>() - spectrum.shape().len();
+        let total_count = spectrum
+            .shape()
+            .iter()
+            .sum::<usize>()
+            .saturating_sub(spectrum.shape().len());
 
         // In general, this point divides the folding line. Since we are folding onto the "upper"
         // part of the array, we want to fold anything "below" it onto something "above" it.
